@@ -6,11 +6,12 @@ set -u
 SEED=$1; WT=$2; shift 2
 export GOFLAGS=-mod=mod GOPROXY=off GOSUMDB=off GOTOOLCHAIN=local
 mkdir -p $SEED/log
-cd $WT && git checkout -q -- . && git clean -fdq -e SEED
+cd $WT && git checkout -q -- . && git clean -fdq
 DEMO=$(ls $SEED/*_test.go 2>/dev/null | head -1)
 PKG=nsqd
 grep -q "^package nsqlookupd" "$DEMO" 2>/dev/null && PKG=nsqlookupd
 git apply $SEED/patch.diff || { echo "patch does not apply" > $SEED/log/confirm.txt; exit 1; }
+if [ -z "${SKIP_CONFIRM:-}" ]; then
 go build ./... > $SEED/log/build.txt 2>&1 && echo "build: ok" > $SEED/log/confirm.txt || echo "build: FAILED" > $SEED/log/confirm.txt
 go test -vet=off -count=1 ./... > $SEED/log/tests_with_change.txt 2>&1 && echo "existing tests with change: pass" >> $SEED/log/confirm.txt || echo "existing tests with change: FAIL" >> $SEED/log/confirm.txt
 if [ -n "$DEMO" ]; then
@@ -20,6 +21,9 @@ if [ -n "$DEMO" ]; then
   go test -vet=off -count=1 -run 'TestSeed' ./$PKG/ > $SEED/log/demo_without_change.txt 2>&1 && echo "demo without change: pass (expected)" >> $SEED/log/confirm.txt || echo "demo without change: FAIL (unexpected)" >> $SEED/log/confirm.txt
   rm -f $WT/$PKG/zz_seed_demo_test.go
   git apply $SEED/patch.diff
+fi
+else
+  grep -v "^check " $SEED/log/confirm.txt > $SEED/log/confirm.tmp; mv $SEED/log/confirm.tmp $SEED/log/confirm.txt
 fi
 for c in "$@"; do
   OUT=$(mktemp -d /dev/shm/seedout-XXXXXX)
